@@ -202,9 +202,8 @@ func parse(text string, lenient bool) Result {
 		p.markUnspec("invalid UTF-8")
 	}
 	for _, l := range lines {
-		if strings.IndexByte(l.Text, '\r') >= 0 {
-			p.markUnspec("carriage return inside a line")
-		}
+		// A carriage return that is not part of a CR LF newline is an ordinary, non-blank character of the
+		// line (glossary: a newline is LF or CR LF; blank characters are tab and Zs): no don't-care zone.
 		if !isPlainBlankLine(l.Text) && IsBlankLine(l.Text) {
 			// A Zs-only line is a blank line of the specification. It is handled as such below;
 			// the zone is remembered so callers can single these texts out.
